@@ -95,6 +95,11 @@ let split_last l =
 
 let verdict id op args impl =
   match op with
+  | "survive" | "survivejson" ->
+    (* C12: the call only has to return; any crash/hang/sanitizer report is the violation *)
+    (match impl with
+     | ICrash w -> Printf.sprintf "(%s crash %s)" id w
+     | _ -> Printf.sprintf "(%s agree survived)" id)
   | "valid" ->
     (* exactness of the validity check: impl answer vs valid_b (= Valid, Theorem validity_exact) *)
     let c = (match args with [l] -> content_of_sx l | _ -> bad "valid args") in
